@@ -103,7 +103,7 @@ GROUP_FLAGS = {
 }
 
 
-def run_kani(harnesses, jobs=16, timeout_s=2400, playback=False, harness_timeout_s=420):
+def run_kani(harnesses, jobs=16, timeout_s=3600, playback=False, harness_timeout_s=900):
     """Run the given harnesses (one cargo kani invocation per flag group).  Returns {name: result}."""
     if not harnesses:
         return {}, []
